@@ -2,6 +2,7 @@ package main
 
 import (
 	"fmt"
+	"github.com/gobuffalo/plush/v5"
 	"html/template"
 	"strings"
 	"time"
@@ -108,7 +109,7 @@ func init() {
 		}
 		// contentFor / contentOf
 		cbodies := []string{"<b><%= s %></b>", "[<%= who %>]", "<%= for (x) in xs { %><%= x %>,<% } %>", "<%= if (who) { %>W<% } else { %>-<% } %>", "text only"}
-		for _, cb := range cbodies {
+		for ci, cb := range cbodies {
 			needsWho := strings.Contains(cb, "who") && !strings.Contains(cb, "if (who)")
 			for uses := 0; uses <= 3; uses++ {
 				var tmpl, want strings.Builder
@@ -135,6 +136,28 @@ func init() {
 				}
 			}
 			// default block, missing name
+			if ci == 0 {
+				// blocks with nothing in them are blocks all the same: an empty default block renders
+				// nothing (it is not a missing block), a block helper gets the empty text
+				for _, t := range [][2]string{
+					{"<%= contentOf(\"nope\") { %><% } %>|", "|"}, {"a<%= contentOf(\"nope\", {who: \"d\"}) { %><% } %>b", "ab"},
+					{"<% contentFor(\"e\") { %><% } %>[<%= contentOf(\"e\") %>]", "[]"}, {"<%= blk() { %><% } %>", "[]"}, {"<%= blk2() { %><% } %>", "|"},
+					{"<%= blkctx({who: 1}) { %><% } %>|", "|"}, {"<%= hasblk() { %><% } %><%= hasblk() %><%= hasblk() { %>x<% } %>", "YNY"},
+				} {
+					c := RCase{Tmpl: t[0], Binds: c17binds()}
+					o := runRenderExtra(c, map[string]interface{}{"hasblk": func(h plush.HelperContext) string {
+						if h.HasBlock() {
+							return "Y"
+						}
+						return "N"
+					}})
+					e.rep.Evaluations++
+					e.Count("empty-block")
+					if o.Class != "OK" || o.Out != t[1] {
+						e.Violate("c17-content", fmt.Sprintf("%s rendered %q (%s %s), want %q: an empty block is a block", t[0], o.Out, o.Class, firstLine(o.Msg), t[1]), map[string]interface{}{"case": c, "observed": o})
+					}
+				}
+			}
 			{
 				c := RCase{Tmpl: "<%= contentOf(\"nope\", {who: \"d\"}) { %>" + cb + "<% } %>|", Binds: c17binds()}
 				o := e.addRenderCase("content", c)
